@@ -40,6 +40,11 @@ for u, R in exp["R"].items():
     print("unknown", u, ": resultant", r, "expected", R, "| first moments about", exp["center"], ":", m.tolist(), "expected", exp["M"][u])
     tol = %(tol)r * exp["scale"]
     bad = bad or abs(r - R) > tol or any(abs(a - b) > tol for a, b in zip(m, exp["M"][u]))
+if "pressure" in exp:
+    Rv = [Fv[:, unk.index(u)].sum() for u in ["x", "y", "z"][:res["inDim"]]]
+    ax, mag = exp["pressure"]["axis"], exp["pressure"]["mag"]
+    print("pressure resultant", Rv, "expected +/-", mag, "along axis", ax, "and 0 elsewhere")
+    bad = bad or abs(abs(Rv[ax]) - abs(mag)) > %(tol)r * exp["scale"] or any(abs(v) > %(tol)r * exp["scale"] for a, v in enumerate(Rv) if a != ax)
 nz = [n for n in exp["zero_nodes"] if np.any(Fv[n] != 0)]
 if nz:
     print("nodes outside every loaded element with a non-zero force:", nz[:10]); bad = True
@@ -328,7 +333,7 @@ def run(ctx):
             ctx.cov.setdefault("pressure_sign_by_case", {})["%s:axis%d" % (c["mesh"]["elemType"] + ("" if c["mesh"].get("organised") else "-unorganised"), ax)] = round(s, 6)
             if abs(abs(Rv[ax]) - abs(mag)) > TOL * scale or tang > TOL * scale:
                 problems.append(("pressure-resultant", "resultant %s, expected magnitude %g along axis %d" % (Rv, mag, ax)))
-            exp_json = {"R": {}, "M": {}, "center": cf, "scale": scale, "zero_nodes": ex["zero_nodes"]}
+            exp_json = {"R": {}, "M": {}, "center": cf, "scale": scale, "zero_nodes": ex["zero_nodes"], "pressure": {"axis": ax, "mag": mag}}
         else:
             mscale = float(ex["measure"]) * float(ex.get("tfac", 1)) if not ex.get("pernode") else 1.0
             cmax = max([abs(float(cc)) for v in c["values"] for cc in poly_of(v).values()] + [1.0])
